@@ -108,7 +108,7 @@ Definition agree11 (c : case11) : bool :=
   match c with
   | CLess o a b observed =>
       let (f, l) := order_lists o in
-      Bool.eqb (legacy_less f l (rid_of a) (rid_of b)) observed
+      Bool.eqb (legacy_less_g gen_ns_reversal_guarded f l (rid_of a) (rid_of b)) observed
   | CBuild t s cs cls out =>
       let t' := tree_of t in
       if is_empty_kust t' && match s with YNone => false | _ => true end
@@ -123,7 +123,8 @@ Definition agree11 (c : case11) : bool :=
           | YLegacy o =>
               let (f, l) := order_lists o in
               (* sort.Sort promises an order only when Less is a strict total order on the input *)
-              if total_on_b f l ids then rids_eqb (sort_legacy f l ids) obs else perm_b ids obs
+              if total_on_g_b gen_ns_reversal_guarded f l ids
+              then rids_eqb (sort_legacy_g gen_ns_reversal_guarded f l ids) obs else perm_b ids obs
           end
       | r => oclass_eqb cls (class_of r)
       end
